@@ -1,5 +1,5 @@
 from mindsdb_sql.parser.ast.base import ASTNode
-from mindsdb_sql.parser.utils import indent
+from mindsdb_sql.parser.utils import indent, params_to_string
 
 
 class CreateAgent(ASTNode):
@@ -31,12 +31,12 @@ class CreateAgent(ASTNode):
         return out_str
 
     def get_string(self, *args, **kwargs):
-        using_ar = []
+        params = {}
         if self.model is not None:
             # an agent created without a model must not print `model=None` (read back as an identifier)
-            using_ar.append(f'model={repr(self.model)}')
-        using_ar += [f'{k}={repr(v)}' for k, v in self.params.items()]
-        using_str = ', '.join(using_ar)
+            params['model'] = self.model
+        params.update(self.params)
+        using_str = params_to_string(params)
 
         out_str = f'CREATE AGENT {"IF NOT EXISTS " if self.if_not_exists else ""}{self.name.to_string()} USING {using_str}'
         return out_str
@@ -65,8 +65,7 @@ class UpdateAgent(ASTNode):
         return out_str
 
     def get_string(self, *args, **kwargs):
-        set_ar = [f'{k}={repr(v)}' for k, v in self.params.items()]
-        set_str = ', '.join(set_ar)
+        set_str = params_to_string(self.params)
 
         out_str = f'UPDATE AGENT {self.name.to_string()} SET {set_str}'
         return out_str
